@@ -1,7 +1,7 @@
 From Coq Require Import Extraction ExtrOcamlBasic.
 From PV Require Import Base.IO UserTrig.UserTrigDefs.
-From PV Require UserTrig.ArriveDefs.
+From PV Require UserTrig.ArriveDefs UserTrig.CountDefs.
 Extraction Language OCaml.
 (* coqc runs from coq/ (coq_makefile), so the path is relative to it *)
 Extraction "extracted/usertrig.ml" io_witness children all_messages received_count
-  ArriveDefs.init ArriveDefs.step ArriveDefs.finished.
+  ArriveDefs.init ArriveDefs.step ArriveDefs.finished CountDefs.cinit CountDefs.cstep CountDefs.disciplined.
